@@ -2,5 +2,6 @@ SPECIFICATION Spec
 CONSTANTS
   MaxItems = 4
   Items <- AllItems
+  Wrap = "prog"
   DumpMod = 41
 CONSTRAINT Dump
